@@ -927,7 +927,7 @@ Definition sort_by_key {A} (l : list (string * A)) : list (string * A) :=
   fold_right insert_by_key [] l.
 
 (* Interpreter.resave_objects_from_continuation: persistent rows by nickname (file order), then
-   those known by table name only whose bare id was not yet saved; tables without history are
+   those known by table name only whose (table, id) was not yet saved; tables without history are
    skipped; afterwards the nickname ordinals handed out count as "not local" *)
 Definition resave (e : env) (c : cont) (h0 : rh) : result rh :=
   let cell_of (x : nat) := nth_error (k_heap c) x in
@@ -949,8 +949,9 @@ Definition resave (e : env) (c : cont) (h0 : rh) : result rh :=
                                                    else Err (Internal "table-map-inconsistent")
                                       | None => Err (Internal "dangling-handle") end
                      end) by_table;
-  let saved_ids := map (fun r => snd r) nick_rows in
-  let rows := nick_rows ++ filter (fun r => negb (existsb (Z.eqb (snd r)) saved_ids)) table_rows in
+  (* already saved = the (table, id) pairs of the nicknamed rows: ids are per table (/repo 0aad1fc) *)
+  let saved := map (fun r => (fst (fst r), snd r)) nick_rows in
+  let rows := nick_rows ++ filter (fun r => negb (existsb (fun p => String.eqb (fst p) (fst (fst r)) && (snd p =? snd r)) saved)) table_rows in
   let rows := filter (fun r => existsb (String.eqb (fst (fst r))) (hist_tables e)) rows in
   let h1 := fold_left (fun h r => save_row h (fst (fst r)) (snd (fst r)) (snd r)) rows h0 in
   Ok (mkRh (tc h1) (nc h1) (lc h1) (nc h1) (n2t h1) (hrows h1)).
